@@ -114,7 +114,7 @@ pub fn fresh_check(scratch: &Scratch, text: &str) -> Option<String> {
     }
 }
 
-pub fn run_watch(scratch: &Scratch, texts: &[String], rename_saves: &[bool]) -> WatchRun {
+pub fn run_watch(scratch: &Scratch, texts: &[String], rename_saves: &[bool], pin_mtime: bool) -> WatchRun {
     let mut run = WatchRun::default();
     for text in texts {
         match fresh_check(scratch, text) {
@@ -185,6 +185,20 @@ pub fn run_watch(scratch: &Scratch, texts: &[String], rename_saves: &[bool]) -> 
             let _ = std::fs::rename(&tmp, &file);
         } else {
             let _ = std::fs::write(&file, text);
+        }
+        if pin_mtime {
+            // A file system with coarse time stamps, or a tool that restores them (cp -p, an
+            // archive): every version carries the same modification time
+            if let Ok(c) = std::ffi::CString::new(file.as_os_str().as_encoded_bytes()) {
+                let stamp = libc::timespec {
+                    tv_sec: 1_700_000_000,
+                    tv_nsec: 0,
+                };
+                let times = [stamp, stamp];
+                unsafe {
+                    libc::utimensat(libc::AT_FDCWD, c.as_ptr(), times.as_ptr(), 0);
+                }
+            }
         }
     };
     'versions: for (i, text) in texts.iter().enumerate() {
